@@ -541,6 +541,13 @@ def misc_hooks() -> dict:
     first = cw[0] if cw else None
     ok = isinstance(first, ast.With) and len(first.items) == 1 and _u(first.items[0].context_expr).replace(" ", "") == "warnings.catch_warnings(record=True)" and len(cw) == 1
     f["warnings_isolated"] = bool(ok)
+    # warnings.pytask_post_parse: registers the namespace unless disabled and does nothing else (in particular it installs no filter
+    # in the process-wide `warnings.filters`: configured filters are applied inside `catch_warnings_for_item` only)
+    wp = _body(_hook("warnings.py", "pytask_post_parse"))
+    ok = (len(wp) == 1 and isinstance(wp[0], ast.If) and not wp[0].orelse
+          and _u(wp[0].test).replace('"', "'") == "not config['disable_warnings']"
+          and [_u(x).replace('"', "'") for x in wp[0].body] == ["config['pm'].register(WarningsNameSpace)"])
+    f["warnings_post_parse_registers_only"] = bool(ok)
     # build(): pytask_unconfigure is the last, unconditional statement of the branch taken when configuration succeeded
     fn = _hook("build.py", "build")
     tries = [n for n in fn.body if isinstance(n, ast.Try)]
@@ -667,6 +674,7 @@ def capgen_section() -> list[str]:
     L.append(f"def captureUnconfigure : List String := {strs(mh['capture_unconfigure'])}")
     L.append(f"def databaseUnconfigure : List String := {strs(mh['database_unconfigure'])}")
     L.append(f"def warningsIsolated : Bool := {b(mh['warnings_isolated'])}")
+    L.append(f"def warningsPostParseRegistersOnly : Bool := {b(mh['warnings_post_parse_registers_only'])}")
     L.append(f"def buildUnconfigureUnconditional : Bool := {b(mh['build_unconfigure_unconditional'])}")
     L.append("/-- what `ExecutionReport.from_task` / `from_task_and_exception` (reports.py) pass as the report's `sections` -/")
     L.append(f"def reportSections : List String := {strs(report_sections())}")
